@@ -166,7 +166,7 @@ func Run(r *fw.Run) {
 	r.Assume = []string{"all n! orders for n<=6 (thorough: n<=8); for n in {12,13,20,33,49,50,51} every ordered position pair (i,j) over >=8 base orders (ascending, descending, rotations, organ-pipe, interleaved, stride), quick tier: n in {12,13,33,50}",
 		"other documents around the conflicting pair: 0..12"}
 	if r.Quick() {
-		r.SetBudget(150 * time.Second)
+		r.SetBudget(300 * time.Second)
 	} else {
 		r.SetBudget(30 * time.Minute)
 	}
